@@ -29,3 +29,9 @@ func (v *VerifOrigin) Update(sessionID, sessionVersion uint64) (uint64, uint64) 
 func (v *VerifOrigin) State() (uint64, uint64) {
 	return atomic.LoadUint64(&v.o.SessionID), atomic.LoadUint64(&v.o.SessionVersion)
 }
+
+// ForceID stores a session id (used by the harness to release calls that wait
+// for an id after a run with a zero id, which is outside pion/sdp's contract).
+func (v *VerifOrigin) ForceID(id uint64) {
+	atomic.StoreUint64(&v.o.SessionID, id)
+}
